@@ -568,7 +568,10 @@ def describe(case):
     return dict(case=case, reading="pre: the source's history (w off len tok in 512-byte units when K=8, snap name user, del, reload); "
                 "fork/dpre: how the destination got its directory (fork=-1: fresh replica); ev: bw = write acknowledged by both, "
                 "copy i = source member i (1 = base) synced with its .meta, reload = Server.Reload without preload, "
-                "ulm = Server.UpdateLUNMap with `mid` written between its two critical sections, ulmrace = against a free writer")
+                "ulm = Server.UpdateLUNMap with `mid` written between its two critical sections, ulmrace = against a free writer; "
+                "cloneinfo = Server.UpdateCloneInfo(S, counter recorded for S); obst on cloneinfo/reload = a directory stands at "
+                "volume.meta.tmp (volume) or <head>.meta.tmp (head) while the call runs, so that this one metadata write fails; the step "
+                "must report it: the flow then stops (no retry) or repeats the step (retry)")
 
 
 def run_data_half(ctx, pid, quick):
